@@ -367,11 +367,8 @@ def check_step(sched, step, pre, post, r):
         for rel, ch in changes:
             key = rel.rstrip('/')
             if ch == 'created':
-                if key in starters or (rel.endswith('/') and key in sdirs):
-                    continue
-                if may_migrate and os.path.dirname(key) == tcfg and os.path.basename(key).startswith('merchant_categories.csv.bak'):
-                    continue
-                bad('INIT', rel, ch)
+                # anything that did not exist before was "missing": creating it keeps every existing file.
+                # (which starter files init chooses to create is not what the statement constrains)
                 continue
             if key == tcfg + '/settings.yaml' and ch == 'changed':
                 if post[key].startswith(pre[key]):
